@@ -639,18 +639,35 @@ func checkInvokePath(c *Check, fn *ssa.Function, fast bool) {
 	nP := vOr(vParam(fn, 3), vCall("(reflect.Type).NumIn", tP))
 	// the final call
 	var F ssa.CallInstruction
+	var zeroArity []ssa.CallInstruction // a separate call with a nil argument list for functions without parameters
+	pick := func(ci ssa.CallInstruction) {
+		if vNil(ci.Common().Args[len(ci.Common().Args)-1]) {
+			zeroArity = append(zeroArity, ci)
+			return
+		}
+		F = ci
+	}
 	if fast {
 		for _, ci := range callsNamed(fn, "(inject.FastInvoker).Invoke") {
 			if fP(ci.Common().Value) {
-				F = ci
+				pick(ci)
 			}
 		}
 	} else {
 		for _, ci := range callsNamed(fn, "(reflect.Value).Call") {
 			if vCall("reflect.ValueOf", fP)(ci.Common().Args[0]) {
-				F = ci
+				pick(ci)
 			}
 		}
+	}
+	// the nil-argument call is made only where the arity is zero
+	for _, z := range zeroArity {
+		noArgs := union(edgesWhere(fn, cCmp(token.EQL, nP, vConstInt(0)), true), edgesWhere(fn, cCmp(token.GTR, nP, vConstInt(0)), false))
+		g, _ := guardedBy(fn, noArgs, isInstr(z))
+		c.Cond(g && len(noArgs) > 0, key+":nil-arguments-only-for-arity-zero", p.Pos(z.Pos()), "the call without arguments is made only where numIn == 0", "the function is called with no arguments although it has parameters")
+	}
+	if F == nil && len(zeroArity) > 0 {
+		F = zeroArity[len(zeroArity)-1]
 	}
 	if F == nil {
 		c.Bad(key+":call", p.FuncPos(fn), "the function is never called")
@@ -704,14 +721,20 @@ func checkInvokePath(c *Check, fn *ssa.Function, fast bool) {
 		}
 		okLoop = i0 && s1
 	}
+	if !okLoop && ascendingIndex(i) {
+		okLoop = true // `for i := range in` (the rotated form: φ(-1, i+1) + 1)
+	}
 	c.Cond(okSlot && okLoop, key+":slots", p.Pos(st.Pos()), "in[i] = Value(t.In(i)) with the same i = 0,1,…", "argument slot i is not filled with the value resolved for parameter i: "+vstr(st.Addr)+" = "+vstr(st.Val))
 	if vv == nil {
 		return
 	}
 	// completion before the call
 	done := union(edgesWhere(fn, cCmp(token.LSS, vIs(i), nP), false), edgesWhere(fn, cCmp(token.GTR, nP, vConstInt(0)), false))
+	// `for i := range in`: the loop ends where i reached len(in), and in is make(_, numIn)
+	rangeDone := edgesWhere(fn, cCmp(token.LSS, vIs(i), vLen(vIs(ms))), false)
+	done = union(done, rangeDone)
 	okDone, path := guardedBy(fn, done, isInstr(F))
-	if okDone && len(done) >= 2 {
+	if okDone && (len(done) >= 2 || (len(rangeDone) > 0 && len(zeroArity) > 0)) {
 		c.OK(key+":call-after-assembly", p.Pos(F.Pos()), "the call is reachable only after i reached numIn (or numIn == 0)", numInstrs(fn))
 	} else {
 		c.Bad(key+":call-after-assembly", p.Pos(F.Pos()), "the function can be called before every argument was resolved", path)
